@@ -10,8 +10,14 @@ Four kinds of generated cases (drawn by one strategy):
 * ``gs``   : on-the-fly swapping inside ``optimize_mps`` (2site) with every OFS criterion on spin / vibronic / qc models.
 * ``evo``  : on-the-fly swapping inside ``tdvp_ps2`` evolution.
 
-plus (thorough tier) one finite case: the repository's own H6 integral file and stored FCI energy, which pins the
-index convention of the harness fermions to the reference the authors used.
+plus one finite case (both tiers): the repository's own H6 integral file and stored FCI energy, which pins the index
+convention of the harness fermions to the reference the authors used.
+
+Known findings (own signature prefixes, narrow matchers): F12 (``f12.``: short symbols are invisible to the JW-aware swap),
+FC17a (``fc17a.``: QR-built MPO + graph swap leaves an identically cancelling bond operator -> AssertionError in swap_site),
+FC17b (``fc17b.``: JW-created operators carry a one-component qn in a two-component model -> duplicate table rows).
+In the F12 zone (short symbols and swap_jw) everything that does not depend on the sign convention is still asserted under
+the ordinary signatures (permutation, spectrum, plain-permutation fallback, labels, sector, variational bound).
 """
 import os
 
@@ -507,15 +513,23 @@ class C17(Prop):
             "gs/evo: at least one exchange was really performed")
     assumptions = ["fermion reference: c_j = (-1)^(occupied orbitals before j) on bit strings, site 0 most significant, bit 1 = "
                    "index 1 of BasisHalfSpin; H = sum h c+c + 1/2 sum (pq|rs) c+_ps c+_rt c_st c_qs; the convention reproduces "
-                   "the repository's H6 FCI energy to 1e-10 (finite case of the thorough tier)",
+                   "the repository's H6 FCI energy to 1e-9 (finite case, both tiers)",
                    "a sequence of fermionic swap gates depends on the final order only (sign = parity of the inversions among "
                    "occupied orbitals)",
                    "OFS runs put CompressConfig objects into the schedule (integer entries replace the config and disable OFS, "
                    "DESIGN par. 3.6); generic Model, never HolsteinModel; ofs_swap_jw only for qc models and pure states",
                    "StackedMpo has no try_swap_site: OFS is exercised with a flat Mpo only",
-                   "tdvp_ps2 is a second-order splitting: OFS and non-OFS runs with the same step are compared with the exact "
-                   "propagator within 0.5*sum(dt^3) (constant calibrated in C09; exact for two sites) plus the local-solver tolerance",
-                   "known finding F12: table_row_swapped_jw ignores the short symbols '+ - Z' emitted by qc_model"]
+                   "tdvp_ps2 with OFS vs without OFS (same step) vs exact propagator: pure states start with full bonds and a lossless "
+                   "limit (otherwise the two-site projection error O(dt) of long-range terms depends on the site order); allowance "
+                   "0.5*steps*dt^3 for the second-order splitting when > 2 sites (C09's constant; measured residual here <= 1e-10, i.e. "
+                   "the scheme is exact to solver accuracy with complete bond bases) + local solver (krylov 1e-6/site/step, IVP 3e-4/step); "
+                   "density operators (MpDm.from_mps, small bonds) only with dt=1e-6 against the rigorous bound 2*n*||H||*t; truncating "
+                   "runs: operator, permutation, sector, labels, bond limit only",
+                   "optimize_mps: the returned state keeps the site order it had when it was captured, which may differ from the final "
+                   "order of the in-place operator; each is un-permuted with its own order.  Lossless schedules: energies[-1] <= <H> of "
+                   "the un-permuted returned state <= energies[-2]",
+                   "known findings F12 / FC17a / FC17b (see module docstring); C01's F15 (QR self-check refuses a correct swap) is "
+                   "counted as rejected here"]
 
     known_matchers = {
         "F12": lambda spec, sig, msg: sig.startswith("f12.") and spec.get("symbols") == "short" and bool(spec.get("swap_jw")),
@@ -526,7 +540,7 @@ class C17(Prop):
     }
 
     def budget(self, tier):
-        return dict(examples=2400, shards=16) if tier == "quick" else dict(examples=40000, shards=16)
+        return dict(examples=2000, shards=16) if tier == "quick" else dict(examples=40000, shards=16)
 
     def strategy(self, tier):
         return cases(tier)
@@ -546,8 +560,7 @@ class C17(Prop):
                 raise
             import traceback
 
-            pre = "f12." if f12_zone(case) and case["kind"] in ("gs", "evo") else ""
-            r.fail(f"{pre}{case['kind']}.{sig}", "".join(traceback.format_exception(type(e), e, e.__traceback__))[-1500:])
+            r.fail(f"{case['kind']}.{sig}", "".join(traceback.format_exception(type(e), e, e.__traceback__))[-1500:])
         return r
 
     # ---- (a) qc_model vs independent fermions ----------------------------------------------------------
@@ -651,6 +664,8 @@ class C17(Prop):
                         r.fail("f12.swap.short_symbols_only_permuted",
                                f"swap_jw=True on a qc_model operator ('+ - Z'): result is the plain leg permutation, |d - F H F+| = "
                                f"{err_f:.3e} (tol {tol:.1e}) " + what)
+                    lv, where = chain.label_violation(mpo)
+                    r.check("swap.labels", lv <= 1e-12, f"bond labels invalid ({lv:.2e}) at {where} " + what)
                     break
                 r.resid("swap.jw", err_f, tol)
             elif not r.check_close("swap.jw" if jw else "swap.permutation", d, want, tol, what):
@@ -708,7 +723,6 @@ class C17(Prop):
                 if r.check_close(f"{tag}.jw_short.mpo_neither_permuted_nor_jw", d, want_p, tol, f"order {order}"):
                     r.fail(f"f12.{tag}.mpo_only_permuted", f"ofs_swap_jw=True on a qc_model operator: in-place MPO is the plain permutation, "
                                                            f"|d - F H F+| = {err:.3e} (order {order})")
-                return order
         else:
             r.check_close(f"{tag}.mpo_reordered", d, want, tol, f"in-place operator vs original in order {order} (jw={sysm.fermi})")
         lv, where = chain.label_violation(mpo)
